@@ -83,6 +83,13 @@ ops::MssmPoint mssm_point(uint64_t seed)
       p.pole_scale = r.chance(0.7) ? 1.0 : r.uniform(0.9, 1.1);
       if (r.chance(0.1)) { p.max_iter = (unsigned)r.below(4); p.precision = 1e-12; }
    }
+   // a fraction of degenerate spectra: exactly equal masses send the loop functions into their x == 1 / x == y branches
+   if (p.mode == 0 && r.chance(0.1)) {
+      const double m = r.loguniform(200, 2000);
+      p.M1 = p.M2 = m; p.Mu = r.chance(0.5) ? m : -m;
+      for (int i = 0; i < 3; ++i) { p.ml2[i] = p.me2[i] = m * m; p.mq2[i] = p.mu2[i] = p.md2[i] = 4 * m * m; }
+      if (r.chance(0.5)) p.MA = m;
+   }
    // a fraction of unphysical points so that exception and warning paths run
    switch (r.below(12)) {
    case 0: p.ml2[1] = -p.ml2[1]; break;        // tachyonic smuon
@@ -111,6 +118,7 @@ ops::ThdmPoint thdm_point(uint64_t seed)
    for (int i = 0; i < 7; ++i) p.lambda[i] = lam[i] * r.uniform(0.5, 1.5);
    p.delta_scale = r.chance(0.5) ? 0 : r.uniform(0, 0.2); p.pi_scale = r.chance(0.5) ? 0 : r.uniform(0, 0.4);
    p.alpha_em_mz = 1.0 / 128.94579; p.mt = 173.34; p.mb = 4.18; p.mtau = 1.77684; p.mhSM = 125.09;
+   if (r.chance(0.1)) { p.mA = p.mHp = p.mH; if (r.chance(0.3)) p.mH = p.mA = p.mHp = p.mh; } // degenerate Higgs masses: x == y branches
    switch (r.below(14)) {
    case 0: p.mh = 500; break;                   // mh > mH
    case 1: p.tb = 0; break;
